@@ -152,6 +152,45 @@ def stepsSync (G : Prog α) (sched : α → Nat → Nat) : Nat → State α → 
   | 0, s => s
   | n + 1, s => stepsSync G sched n (stepSync G sched s)
 
+/-! ### The await rule of `importInitializer`, made explicit
+
+compiler/decls.go:199-207 marks EVERY call `q.$init()` emitted for an import as blocking (`fc.Blocking[call] = true`):
+the importer inspects the result and, when the callee returned a saved frame, saves its own frame and returns it too
+("awaits"). The machine `stepA` takes that rule as a parameter `awaits importer imported`: when the running item
+suspends, the JavaScript stack unwinds through the callers as long as each caller awaits its callee; the first caller
+that does NOT await (a plain `q.$init();` whose result is ignored) simply continues with its next step while the
+frames below it are detached (whatever happens to them later, they no longer hold their callers back). -/
+
+/-- `none`: every caller on the stack awaits its callee — the whole goroutine suspends with the stack intact.
+    `some st`: a caller that does not await continues; `st` is the stack from that caller on. -/
+def unwind (awaits : α → α → Bool) : List (Frame α) → Option (List (Frame α))
+  | [] => none
+  | [_] => none
+  | f :: g :: rest => if awaits g.pkg f.pkg then unwind awaits (g :: rest) else some (g :: rest)
+
+def stepA (G : Prog α) (sched : α → Nat → Nat) (awaits : α → α → Bool) (s : State α) : State α :=
+  match s.stack with
+  | [] => s
+  | f :: _ =>
+    match f.imps, f.items, f.cur with
+    | [], _ :: _, some (_ + 1) =>
+      match unwind awaits s.stack with
+      | none => step G sched s
+      | some st => { s with stack := st, trace := s.trace ++ [Ev.yield] }
+    | _, _, _ => step G sched s
+
+def stepsA (G : Prog α) (sched : α → Nat → Nat) (awaits : α → α → Bool) : Nat → State α → State α
+  | 0, s => s
+  | n + 1, s => stepsA G sched awaits n (stepA G sched awaits s)
+
+/-- the real rule (decls.go:203): always await -/
+def awaitsAlways : α → α → Bool := fun _ _ => true
+
+/-- the rule "await only if the imported package's OWN initialisers can suspend" (does not look at that package's
+    imports) — not the code's rule; kept as the subject of a counterexample -/
+def awaitsIfDirectlyBlocking (G : Prog α) (sched : α → Nat → Nat) : α → α → Bool :=
+  fun _ q => (List.range (G.nitems q)).any fun i => sched q i != 0
+
 /-- the direct-style description of one complete `$init` activation (used by the proofs and by the driver):
     events of `p.$init()` called in a state where `repl` are the replaced packages. -/
 def itemEvs (sched : α → Nat → Nat) (p : α) (i : Nat) : List (Ev α) :=
